@@ -27,6 +27,7 @@ type Reply struct {
 	Proto    string `json:"proto,omitempty"`    // "" = HTTP/1.1
 	NoCL     bool   `json:"no_cl,omitempty"`    // omit Content-Length (close-delimited)
 	Chunked  bool   `json:"chunked,omitempty"`
+	Trailer  Hdr    `json:"trailer,omitempty"` // trailer section of a chunked reply
 }
 
 type Fault struct {
